@@ -39,11 +39,32 @@ def judge(ctx, case, out, r, mutated, models, reg):
         ctx.disagreement(case, models["impl"], out, "unpack")
 
 
+# a NamedTuple with defaults read from a MAPPING (namedtuple_as_dict): a missing key selects the default of
+# that member only, later keys are still read (finding F45)
+_NTD = ["nt", "ND", [["a", "int"], ["b", "int"], ["c", ["opt", "str"]]], [["i", "5"], None], None]
+_HND = ["dc", "HND", {"namedtuple_as_dict": True}, [[{"name": "p", "alias": None, "default": None, "init": True, "omit": False}, _NTD]]]
+
+
+def _hnd(inner):
+    return ["map", "dict", [[["s", "p"], inner]]]
+
+
+NT_DICT_CORPUS = [(_HND, _hnd(["map", "dict", [[["s", k], v] for k, v in kv]]), e, "corpus") for e in ("mixin", "codec") for kv in (
+    [("a", ["i", "1"])],
+    [("a", ["i", "1"]), ("c", ["s", "z"])],
+    [("a", ["s", "1"]), ("b", ["s", "2"]), ("c", ["s", "z"])],
+    [("b", ["i", "2"])],
+    [],
+    [("a", ["i", "1"]), ("b", ["s", "x"])],
+)] + [(_HND, _hnd(["coll", "list", [["i", "1"], ["i", "2"]]]), "mixin", "corpus")]
+
+
 def run(ctx):
     ctx.rule = RULE
     ctx.lean_check("Mashu.Props.C03", THEOREMS, extra_targets=["Mashu.Dispatch"])
     for mode, cs in decode.fixed_corpus(ctx).items():
         decode.run_decode(ctx, cs, judge, annot=mode)
+    decode.run_decode(ctx, NT_DICT_CORPUS, judge)
     n, depth = (3000, 3) if ctx.tier == "quick" else (50000, 4)
     done = 0
     while done < n and ctx.time_left() > 30:
